@@ -240,9 +240,25 @@ let run17 (input : S.t) (observed : S.t) : S.t * string =
            | x -> failwith ("schema: bad doc " ^ S.to_string x)) ds)
     | _ -> failwith "c17: input" in
   let results = Model.loads_m [] docs in
-  if List.exists (fun (acc, _) -> not acc) results then
-    (S.L [S.A "load-failed"], (match observed with S.L (S.A "load-failed" :: _) -> "holds-load-refused-by-both" | _ -> "fails:model-refuses-a-load"))
-  else begin
+  if List.exists (fun (acc, _) -> not acc) results then begin
+    (* C17 speaks about accepted schemas; whether a load is rightly accepted is C13's question.  When the
+       catalogue refuses a load ONLY for directive uses on field definitions, field arguments or input
+       fields (which ggql never validates: known finding F13 of C13/C14/C16) the case is outside C17. *)
+    let befores = [] :: List.map snd results in
+    let rec first_refused ds rs bs = match ds, rs, bs with
+      | (broken, doc) :: ds', (acc, _) :: rs', before :: bs' ->
+        if acc then first_refused ds' rs' bs' else Some (broken, doc, before)
+      | _ -> None in
+    let only_f13 = (match first_refused docs results befores with
+        | Some (false, doc, before) ->
+          let errs = Model.errors_in (before @ Model.drop_core_redecl doc) in
+          errs <> [] && List.for_all (fun (r, _) -> List.mem (int_of_nat r) [28; 29; 30; 36]) errs
+        | _ -> false) in
+    match observed with
+    | S.L (S.A "load-failed" :: _) -> (S.L [S.A "load-failed"], "holds-load-refused-by-both")
+    | _ when only_f13 -> (project17 observed, "holds:outside-claim-load-accepted-through-unvalidated-member-directive-uses-(F13)")
+    | _ -> (S.L [S.A "load-failed"], "fails:model-refuses-a-load")
+  end else begin
     let st = match List.rev results with (_, st) :: _ -> st | [] -> [] in
     let sch = s_jt (Model.schema_answer st incl) in
     (* names from 5000 on are names of directives: no type has such a name (the rendering keeps the two
